@@ -185,7 +185,7 @@ def focused_docs() -> list[tuple[str, dict]]:
     return f3()
 
 
-def run_tasks(ck: Check, camp, tasks: list[tuple], procs: int = 8) -> None:
+def run_tasks(ck: Check, camp, tasks: list[tuple], procs: int = 12) -> None:
     if not tasks:
         return
     ctx = mp.get_context("fork")
@@ -226,6 +226,54 @@ def campaign_random(ck: Check, n: int) -> None:
     camp.wall_s = time.time() - t0
 
 
+def campaign_reuse(ck: Check, n: int) -> None:
+    """`reuse_merge_sound` needs the two classes to be the same class. What the real pass merges is decided by
+    its key (rendered text + imports): whenever it merges two named definitions, stage 1 of the model must give
+    them the same IR (fields, required flags, constraints, types, `extra`)."""
+    from .. import semlean
+    from .c03 import twin_docs
+
+    camp = ck.campaign("Parser.__reuse_model merges definitions B→A  ⇒  sem.trdef B = sem.trdef A (identical IR incl. extra)")
+    t0 = time.time()
+    rng = ck.rng.fork("reuse")
+    docs = [d for _l, d in twin_docs()]
+    for i in range(n):
+        doc, _f = semgen.gen_doc(rng.fork(str(i)), semgen.GenCfg(boost=("union" if i % 2 else ""), draft4=(i % 5 == 0)))
+        if len(doc.get("definitions") or {}) >= 2:
+            docs.append(doc)
+    reqs, meta = [], []
+    for doc in docs:
+        try:
+            ssx = semlean.schema_sx(semlean.body_of(doc), top=True)
+            dsx = semlean.defs_sx(doc)
+        except semlean.Unmodelled:
+            camp.unmodelled += 1
+            continue
+        for st in STYLES:
+            try:
+                merges = semlean.RealIR(doc, st, "contype").reuse_merges()
+            except Exception as e:  # noqa: BLE001
+                camp.unmodelled += 1
+                camp.hit(f"pass-raised:{type(e).__name__}")
+                continue
+            camp.evaluations += 1
+            camp.hit("merge" if merges else "no_merge")
+            for b, a in merges:
+                for x in (a, b):
+                    reqs.append(f"sem.trdef {st} contype {dsx} {ssx} {semlean.hx(x)}")
+                meta.append((doc, st, a, b))
+    replies = ck.driver.run(reqs)
+    for i, (doc, st, a, b) in enumerate(meta):
+        ra, rb = replies[2 * i], replies[2 * i + 1]
+        camp.evaluations += 1
+        camp.distinct.add(hash((semgen.canon(doc), st, a, b)))
+        if ra != rb:
+            ck.disagree(camp, {"doc": doc, "style": st, "merged": [b, a]}, "IR differs: the two classes do not accept the same values", "merged by __reuse_model")
+        elif len(camp.samples) < 2:
+            camp.samples.append({"doc": doc, "style": st, "merged": [b, a]})
+    camp.wall_s = time.time() - t0
+
+
 def search(ck: Check) -> None:
     camp = ck.campaign("search: more seeded schemas after a broken obligation")
     rng = ck.rng.fork("search")
@@ -261,6 +309,7 @@ def run(ck: Check) -> None:
     from .c03 import campaign_model
 
     campaign_model(ck, 25 if quick else 250, parts=("tr",), fork="c14-stage1")
+    campaign_reuse(ck, 40 if quick else 400)
     campaign_focused(ck)
     campaign_random(ck, 70 if quick else 600)
     ck.search_hooks.append(search)
